@@ -347,6 +347,10 @@ func finish(rr *runResult, noReplay bool, t0 time.Time) {
 		validated = v
 		valNotes = notes
 		for _, b := range bad {
+			if rr.spec.TimedNative {
+				valNotes = append(valNotes, "native run with real timers differed (scheduling jitter; not counted): "+b)
+				continue
+			}
 			inconcl = append(inconcl, "encoder validation mismatch: "+b)
 		}
 	}
